@@ -119,6 +119,8 @@ pub struct BlockRec {
     pub sizes_after: [u32; 3],
     /// every commitment added by this block per pool, in order
     pub commitments: [Vec<[u8; 32]>; 3],
+    /// shards (subtrees of 2^16 leaves) completed by this block: (pool index, shard index, root)
+    pub completed_shards: Vec<(usize, u64, [u8; 32])>,
 }
 
 pub struct World {
@@ -157,6 +159,12 @@ impl World {
 pub struct Chain {
     pub base_height: u32,
     pub base_state: ChainState,
+    /// note commitment tree sizes at `base_height`
+    pub base_sizes: [u32; 3],
+    /// per pool, the roots of the shards that are already complete at `base_height` (shard 0 first)
+    pub base_shard_roots: [Vec<[u8; 32]>; 3],
+    /// per pool, the height at which the pool activates
+    pub pool_activation: [u32; 3],
     pub blocks: Vec<BlockRec>,
     /// ids of the blocks of the current branch in height order (branch[0] has height base_height+1)
     pub branch: Vec<usize>,
@@ -174,20 +182,118 @@ fn addr_type(scope: ScopeSel) -> AddressType {
     }
 }
 
+/// A frontier of a tree holding `size` leaves, together with the roots of every complete shard (2^16-leaf subtree)
+/// of that tree. The leaf, the ommers inside the last shard and the roots of the complete shards are arbitrary (valid)
+/// nodes; the ommers at and above the shard level are the true combinations of those shard roots, so that the shard
+/// roots a chain server would report are consistent with the frontier.
+fn fake_frontier<H: Clone + incrementalmerkletree::Hashable, const D: u8>(size: u32, mut node: impl FnMut() -> H) -> (Frontier<H, D>, Vec<H>) {
+    use incrementalmerkletree::Level;
+    if size == 0 {
+        return (Frontier::empty(), vec![]);
+    }
+    let pos = size as u64 - 1;
+    let q = (pos >> 16) as usize;
+    let mut shard_roots: Vec<H> = (0..q).map(|_| node()).collect();
+    fn span_root<H: Clone + incrementalmerkletree::Hashable>(roots: &[H], a: usize, j: u8) -> H {
+        if j == 0 {
+            roots[a].clone()
+        } else {
+            let l = span_root(roots, a, j - 1);
+            let r = span_root(roots, a + (1 << (j - 1)), j - 1);
+            H::combine(Level::from(16 + j - 1), &l, &r)
+        }
+    }
+    let leaf = node();
+    let mut ommers = vec![];
+    for level in 0..32u8 {
+        if (pos >> level) & 1 == 1 {
+            if level < 16 {
+                ommers.push(node());
+            } else {
+                let j = level - 16;
+                let idx = ((pos >> level) - 1) as usize;
+                ommers.push(span_root(&shard_roots, idx << j, j));
+            }
+        }
+    }
+    let f: Frontier<H, D> = Frontier::from_parts(incrementalmerkletree::Position::from(pos), leaf, ommers).expect("consistent frontier parts");
+    if size % (1 << 16) == 0 {
+        // the last shard is complete as well
+        shard_roots.push(f.value().unwrap().root(Some(Level::from(16))));
+    }
+    (f, shard_roots)
+}
+
 impl Chain {
     pub fn new(world: &World) -> Self {
-        let base_height = SAPLING_ACTIVATION - 1;
         let mut seed = world.spec.seed;
         seed[7] ^= 0x33;
+        let (base_height, base_state, base_sizes, base_shard_roots) = match &world.spec.base {
+            None => {
+                let h = SAPLING_ACTIVATION - 1;
+                (h, ChainState::empty(BlockHeight::from_u32(h), BlockHash([0; 32])), [0, 0, 0], [vec![], vec![], vec![]])
+            }
+            Some(b) => {
+                let h = SAPLING_ACTIVATION - 1 + b.gap.max(1) as u32;
+                let mut sizes = b.sizes;
+                if !world.ironwood_active(h) {
+                    sizes[2] = 0;
+                }
+                let mut nrng = {
+                    let mut s2 = seed;
+                    s2[9] ^= 0x77;
+                    ChaCha20Rng::from_seed(s2)
+                };
+                // canonical encodings of both base fields: the top byte cleared keeps the value below the modulus
+                let mut node_bytes = || {
+                    let mut b = [0u8; 32];
+                    nrng.fill_bytes(&mut b);
+                    b[31] = 0;
+                    b
+                };
+                let (sap, sr): (SaplingFrontier, _) = fake_frontier(sizes[0], || sapling::Node::from_bytes(node_bytes()).unwrap());
+                let (orc, or): (OrchardFrontier, _) = fake_frontier(sizes[1], || MerkleHashOrchard::from_bytes(&node_bytes()).unwrap());
+                let (iw, ir): (OrchardFrontier, _) = fake_frontier(sizes[2], || MerkleHashOrchard::from_bytes(&node_bytes()).unwrap());
+                let roots = [sr.iter().map(|n| n.to_bytes()).collect(), or.iter().map(|n| n.to_bytes()).collect(), ir.iter().map(|n| n.to_bytes()).collect()];
+                (h, ChainState::new(BlockHeight::from_u32(h), BlockHash([0; 32]), sap, orc, iw), sizes, roots)
+            }
+        };
         Chain {
             base_height,
-            base_state: ChainState::empty(BlockHeight::from_u32(base_height), BlockHash([0; 32])),
+            base_state,
+            base_sizes,
+            base_shard_roots,
+            pool_activation: [SAPLING_ACTIVATION, SAPLING_ACTIVATION, world.nu6_3_height().unwrap_or(SAPLING_ACTIVATION)],
             blocks: vec![],
             branch: vec![],
             notes: vec![],
             spent_on_branch: BTreeMap::new(),
             rng: ChaCha20Rng::from_seed(seed),
         }
+    }
+
+    /// some pool's tree grew across a multiple of 2^16 leaves (a shard boundary) on the current branch
+    pub fn crossed_shard_boundary(&self) -> bool {
+        let tip = self.sizes_at(self.tip_height());
+        (0..3).any(|p| self.base_sizes[p] >> 16 != tip[p] >> 16)
+    }
+
+    /// Every shard of `pool` that is complete on the current branch, shard 0 first: (index, height of the block that
+    /// completed it, root). Shards below the base get made-up, non-decreasing end heights at or below the base height.
+    pub fn complete_shards(&self, pool: usize) -> Vec<(u64, u32, [u8; 32])> {
+        let base = &self.base_shard_roots[pool];
+        let act = self.pool_activation[pool].min(self.base_height);
+        let gap = self.base_height + 1 - act;
+        let mut out: Vec<(u64, u32, [u8; 32])> = base.iter().enumerate().map(|(i, r)| (i as u64, act + (i as u32 * gap) / (base.len() as u32 + 1), *r)).collect();
+        for id in &self.branch {
+            let b = &self.blocks[*id];
+            for (p, idx, root) in &b.completed_shards {
+                if *p == pool {
+                    out.push((*idx, b.height, *root));
+                }
+            }
+        }
+        out
     }
 
     pub fn tip_height(&self) -> u32 {
@@ -212,7 +318,7 @@ impl Chain {
 
     pub fn sizes_at(&self, height: u32) -> [u32; 3] {
         if height == self.base_height {
-            [0, 0, 0]
+            self.base_sizes
         } else {
             self.block_at(height).expect("height on branch").sizes_after
         }
@@ -433,21 +539,35 @@ impl Chain {
         let mut orc = prior_state.final_orchard_tree().clone();
         let mut iw = prior_state.final_ironwood_tree().clone();
         let mut commitments: [Vec<[u8; 32]>; 3] = [vec![], vec![], vec![]];
+        let mut completed_shards: Vec<(usize, u64, [u8; 32])> = vec![];
+        let shard_level = incrementalmerkletree::Level::from(16);
         for tx in &vtx {
             for o in &tx.outputs {
                 let b: [u8; 32] = o.cmu.clone().try_into().unwrap();
                 sap.append(sapling::Node::from_cmu(&o.cmu().unwrap()));
                 commitments[0].push(b);
+                let size = sap.tree_size();
+                if size % (1 << 16) == 0 {
+                    completed_shards.push((0, size / (1 << 16) - 1, sap.value().unwrap().root(Some(shard_level)).to_bytes()));
+                }
             }
             for a in &tx.actions {
                 let b: [u8; 32] = a.cmx.clone().try_into().unwrap();
                 orc.append(MerkleHashOrchard::from_cmx(&a.cmx().unwrap()));
                 commitments[1].push(b);
+                let size = orc.tree_size();
+                if size % (1 << 16) == 0 {
+                    completed_shards.push((1, size / (1 << 16) - 1, orc.value().unwrap().root(Some(shard_level)).to_bytes()));
+                }
             }
             for a in &tx.ironwood_actions {
                 let b: [u8; 32] = a.cmx.clone().try_into().unwrap();
                 iw.append(MerkleHashOrchard::from_cmx(&a.cmx().unwrap()));
                 commitments[2].push(b);
+                let size = iw.tree_size();
+                if size % (1 << 16) == 0 {
+                    completed_shards.push((2, size / (1 << 16) - 1, iw.value().unwrap().root(Some(shard_level)).to_bytes()));
+                }
             }
         }
         let mut hash = [0u8; 32];
@@ -467,7 +587,7 @@ impl Chain {
         };
         let state_after = ChainState::new(bh, BlockHash(hash), sap, orc, iw);
         let parent = if height - 1 == self.base_height { None } else { Some(self.block_at(height - 1).unwrap().id) };
-        self.blocks.push(BlockRec { id, parent, height, hash, prev_hash, cb, txs, state_after, sizes_after: sizes, commitments });
+        self.blocks.push(BlockRec { id, parent, height, hash, prev_hash, cb, txs, state_after, sizes_after: sizes, commitments, completed_shards });
         self.branch.push(id);
         self.notes.extend(new_notes);
         for n in newly_spent {
